@@ -92,6 +92,23 @@ CLAIMED = {
    ref='DESIGN.md section 5, C10'),
 }
 
+# clauses added after the fourth wave of seeded changes (appended to the level text of each property)
+ADD = {
+ "C01": " Wave-4 additions: R12 if-templates with structured conditions (constants, not, and, or, =, <) executed over the ordering domain; R18 scoped constant propagation.",
+ "C04": " The radix of the literal conversion (must be 10) is checked before the lexer interpretation; an unmodelled lexer shape is reported as undecided for that rule only.",
+ "C05": " R3d: a data word behind a reference that grows between passes is emitted at its final, word-aligned label value (image emitted from byte 0); R4 also for FUNC/PROC before DATA.",
+ "C07": " R11: constants passed as call actuals (import of the call-template rule of C01).",
+ "C08": " R10: subscript templates (import of C01-R16).",
+ "C09": " R14: the frame report (--memory-info) is total on the no-procedure program and every integer division has a non-zero constant or tested divisor; R15: the hexutil::Error handler of Driver::runCatchExceptions is total (no exception leaves it, no out-of-range access) with the lexer in the end state of eight small sources and the error at any token location.",
+ "C10": " R13: tokenEnumStr is total over the Token enumeration; R14: the hexutil::Error handler of main() is total on lexer end states (as C09-R15).",
+ "C11": " Obligation: constValue is assigned only by ConstProp (the val guard protocol depends on it).",
+ "C12": " R2c: no throwing call and only guarded symbol lookups inside the trace functions.",
+ "C14": " R10: loader shapes (import of C02-R2); R11: in xrun the compile dominates the simulation.",
+ "C15": " R7: every procedure reaches its prologue directive; R8: hexsim::Processor::load interpreted on well-formed binaries of 1, 3, 12 and 40 minimal procedures keeps exactly the written (name, offset) list.",
+ "C16": " Copies that mention SYNTHESIS are also elaborated with +define+SYNTHESIS and compared (interface and sampled bytes).",
+ "C17": " R5 also imports C05-R3d (data word behind a growing reference); encodings written with write(data,size) of a character-built string are decoded like put().",
+}
+
 NOT_YET = 'engine not finished yet in this round (DESIGN.md section 7 build order); no check is registered, nothing is claimed'
 
 def main():
@@ -109,7 +126,7 @@ def main():
             'replay_cmd_template': 'python3 -m hexsa.check --replay {path}',
             'engine': 'hexsa',
             'technique': c['technique'],
-            'level_claimed': {'category': 'other', 'text': c['text'], 'design_ref': c['ref']},
+            'level_claimed': {'category': 'other', 'text': c['text'] + ADD.get(pid, ''), 'design_ref': c['ref']},
             'level_note': c['note'],
         })
     m = {
